@@ -100,6 +100,23 @@ def report_cross(prop: str, seed: int, tier: str, xviol: list[dict], hs_of: dict
         done_sigs.add(sig)
         c1, c2 = r1["case"], r2["case"]
         info: dict[str, Any] = {}
+        kf = M.match_open(known, prop, sig)
+        if kf:
+            out["known_hits"][sig] = out["known_hits"].get(sig, 0) + 1
+            print(f"KNOWN-FINDING: property={prop} {kf['what']} [signature {sig}]", flush=True)
+            continue
+        name = f"{prop}-{seed}-{s}-pair-{hashlib.sha256(sig.encode()).hexdigest()[:8]}.json"
+        path = os.path.join(M.REPLAYS, name)
+        doc = {"kind": "pair", "property": prop, "signature": sig, "key": key, "verif_seed": seed, "scenario": s,
+               "workers": [w1, w2], "hashseeds": [h1, h2], "cases": [c1, c2], "minimisation": {"minimised": False},
+               "values": [r1["xv"].get(key), r2["xv"].get(key)]}
+        # reported at once (the file as recorded already replays); minimisation then rewrites it in place
+        with open(path, "w") as f:
+            json.dump(doc, f, indent=1, sort_keys=True)
+        print(f"VIOLATION property={prop} replay={path}", flush=True)
+        out["violations"] = out.get("violations", 0) + 1
+        out["replays"].append(path)
+        rc = 1
         if prop == "C11":
             c1, info = minimise_pair_c11(c1, key, sig, h1, h2)
             c2 = dict(c1, hashseed=h2)
@@ -109,16 +126,8 @@ def report_cross(prop: str, seed: int, tier: str, xviol: list[dict], hs_of: dict
                 c1, c2, info = minimise_pair_graph(prop, c1, c2, key, sig, h1, h2)
             except M.Harness as e:
                 info = {"error": str(e)[:300]}
-        kf = M.match_open(known, prop, sig)
-        if kf:
-            out["known_hits"][sig] = out["known_hits"].get(sig, 0) + 1
-            print(f"KNOWN-FINDING: property={prop} {kf['what']} [signature {sig}]")
-            continue
-        name = f"{prop}-{seed}-{s}-pair-{hashlib.sha256(sig.encode()).hexdigest()[:8]}.json"
-        path = os.path.join(M.REPLAYS, name)
-        doc = {"kind": "pair", "property": prop, "signature": sig, "key": key, "verif_seed": seed, "scenario": s,
-               "workers": [w1, w2], "hashseeds": [h1, h2], "cases": [c1, c2], "minimisation": info,
-               "values": [r1["xv"].get(key), r2["xv"].get(key)]}
+        doc["cases"] = [c1, c2]
+        doc["minimisation"] = info
         # verify in fresh interpreters
         rep = replay_values(doc, scratch)
         doc["fresh_replay_values"] = rep
@@ -139,12 +148,8 @@ def report_cross(prop: str, seed: int, tier: str, xviol: list[dict], hs_of: dict
                 doc.pop("prefixes", None)
         with open(path, "w") as f:
             json.dump(doc, f, indent=1, sort_keys=True)
-        print(f"VIOLATION property={prop} replay={path}")
-        print(f"  signature={sig} scenario={s} workers={w1},{w2} PYTHONHASHSEED={h1} vs {h2} key={key}")
-        print(f"  values: {json.dumps(rep[0])[:300]}  VS  {json.dumps(rep[1])[:300]}")
-        out["violations"] = out.get("violations", 0) + 1
-        out["replays"].append(path)
-        rc = 1
+        print(f"  signature={sig} scenario={s} workers={w1},{w2} PYTHONHASHSEED={h1} vs {h2} key={key}", flush=True)
+        print(f"  values: {json.dumps(rep[0])[:300]}  VS  {json.dumps(rep[1])[:300]}", flush=True)
     for sig, n in seen.items():
         out["sigs"][sig] = out["sigs"].get(sig, 0) + n
     return rc
